@@ -105,6 +105,21 @@ Theorem C13_wls_equivariance_partial :
 Proof. exact wls_values_equivariant. Qed.
 Print Assumptions C13_wls_equivariance_partial.
 
+(* (5d) ordinary least squares: the WHOLE result is equivariant -- ssr' = ga^2 ssr and the
+   covariance matrix of (a', b') is the one induced by the linear map of (5b):
+   u(b') = |ga/al| u(b); u(a')^2 and cov(a',b') as below (cov = r u(a) u(b)) *)
+Theorem C13_ols_equivariance_full :
+  forall (l : list pt) al be ga de fs fs', al <> 0 ->
+  g_line_fit RNum (map px l) (map py l) = Ok fs ->
+  g_line_fit RNum (map (fun p => al * px p + be) l) (map (fun p => ga * py p + de) l) = Ok fs' ->
+  let cab := fs_r fs * fs_au fs * fs_bu fs in
+  fs_ssr fs' = ga * ga * fs_ssr fs /\
+  fs_bu fs' = Rabs (ga / al) * fs_bu fs /\
+  fs_au fs' * fs_au fs' = ga * ga * (fs_au fs * fs_au fs - 2 * (be / al) * cab + (be / al) * (be / al) * (fs_bu fs * fs_bu fs)) /\
+  fs_r fs' * fs_au fs' * fs_bu fs' = ga * ga / al * (cab - be / al * (fs_bu fs * fs_bu fs)).
+Proof. exact ols_full_equivariant. Qed.
+Print Assumptions C13_ols_equivariance_full.
+
 (* the same algebra for any design (weighted fits): transformed sums, transformed solution *)
 Theorem C13_normal_eqs_equivariant :
   forall S Sx Sy Sxx Sxy a b al be ga de, al <> 0 ->
